@@ -9,14 +9,14 @@ PROP_MODULE = "SquidModel.Properties.C06"
 MODEL = "c06"
 GEN = []
 RULE = ("scenario = random binary payloads client->server and server->client x random segmentation of each side's writes x bytes sent right "
-        "behind the CONNECT head x who closes first x clean close (after receiving the peer's whole payload) or abort at a random offset; "
+        "behind the CONNECT head x who closes first x clean close (after receiving the peer's whole payload) or abort at a random offset; plus back-pressure scenarios (a client that does not read, the server sends until Squid holds unwritten bytes, closes, and its closure reaches Squid through a failed write: every byte must still reach the client); "
         "non-trivial = both payloads non-empty; distinct = distinct scenario lines")
 TRUSTED = ["modelled, not verified: Comm I/O scheduling, timeouts, delay pools, TLS, cache_peer CONNECT; kernel TCP (a RST may discard queued data: abort scenarios only require prefixes)"]
 ASSUMPTIONS = ["direct tunnel to a loopback TCP server; default configuration"]
 MANIFEST = {
     "engine": "e2e",
     "text": "partial: for the relay state machine of one tunnel direction (read only when nothing is pending, write all, zero-byte read closes both ends, sink gone stops the source) and every "
-            "event history incl. arbitrary interference from the other direction: out_is_prefix_of_in, eof_delivers_all, early_client_bytes_kept, eof_only_after_everything. Tied to the rebuilt "
+            "event history incl. arbitrary interference from the other direction: out_is_prefix_of_in, eof_delivers_all, early_client_bytes_kept, eof_only_after_everything, pending_write_survives_peer_closure. Tied to the rebuilt "
             "binary by end-to-end scenarios whose observed streams must equal the model's clean-run delivery, and a direct oracle (received == sent on clean close, prefix on abort, nothing but the 200 line before the server's bytes).",
     "note": "trusted: Lean kernel, python rig, loopback TCP. Not modelled: Comm event scheduling, timeouts, the 200 reply generation, peers/TLS",
     "technique": "Lean 4 invariant over event histories of the relay state machine + end-to-end byte-stream correspondence with the rebuilt squid",
@@ -95,13 +95,154 @@ def recv_all(sock, timeout):
         buf += d
 
 
+def tcp_queues():
+    """{(local_port, remote_port): (tx_queue, rx_queue)} of the loopback TCP sockets (from /proc/net/tcp)"""
+    res = {}
+    try:
+        with open("/proc/net/tcp") as f:
+            next(f)
+            for l in f:
+                w = l.split()
+                if len(w) < 5 or w[3] == "0A":
+                    continue
+                tx, rx = w[4].split(":")
+                res[(int(w[1].split(":")[1], 16), int(w[2].split(":")[1], 16))] = (int(tx, 16), int(rx, 16))
+    except OSError:
+        pass
+    return res
+
+
 class Harness:
     def __init__(self, stage):
         self.squid = rig.Squid(stage, conf="").start()
+        # back-pressure scenarios: small kernel buffers so that Squid's to-client write stalls after a few blocks
+        self.squid2 = rig.Squid(stage, conf="tcp_recv_bufsize 32768 bytes\n").start()
         self.crashes = 0
+
+    def backlog_once(self, blocksz, seed):
+        """The client does not read (tiny receive buffer); the server sends block after block until Squid has read everything but
+        holds bytes it could not write to the client; the server closes; the client sends two bytes (the first draws a RST, the write
+        of the second fails, so Squid sees the server go away through a write error while its to-client write is pending);
+        then the client reads to EOF: it must get every byte the server sent. -> (status, sent, got, held)"""
+        import random
+        rnd = random.Random(seed)
+        T = 10 * rig.VERIF_SLOW
+        lsn = socket.socket()
+        lsn.setsockopt(socket.SOL_SOCKET, socket.SO_REUSEADDR, 1)
+        lsn.setsockopt(socket.SOL_SOCKET, socket.SO_SNDBUF, 1 << 20)
+        lsn.bind(("127.0.0.1", 0))
+        lsn.listen(4)
+        oport = lsn.getsockname()[1]
+        c = socket.socket()
+        c.setsockopt(socket.SOL_SOCKET, socket.SO_RCVBUF, 4096)
+        c.settimeout(T)
+        s = None
+        try:
+            c.connect(("127.0.0.1", self.squid2.port))
+            c.sendall(("CONNECT 127.0.0.1:%d HTTP/1.1\r\nHost: 127.0.0.1:%d\r\n\r\n" % (oport, oport)).encode())
+            hdr = b""
+            while not hdr.endswith(b"\r\n\r\n"):
+                b = c.recv(1)
+                if not b:
+                    return ("no-200", b"", b"", 0)
+                hdr += b
+            status = hdr.split(b" ")[1].decode("latin-1")
+            if status != "200":
+                return (status, b"", b"", 0)
+            cport = c.getsockname()[1]
+            lsn.settimeout(T)
+            s, peer = lsn.accept()
+            s.setsockopt(socket.IPPROTO_TCP, socket.TCP_NODELAY, 1)
+            qport = peer[1]
+            time.sleep(0.3)
+            sent, held = b"", 0
+            for i in range(400):
+                blk = bytes(rnd.getrandbits(8) for _ in range(blocksz))
+                s.sendall(blk)
+                sent += blk
+                deadline, stable, settled = time.time() + T, 0, False
+                while time.time() < deadline:
+                    q = tcp_queues()
+                    o_tx = q.get((oport, qport), (0, 0))[0]
+                    q_rx = q.get((qport, oport), (0, 0))[1]
+                    k_tx = q.get((self.squid2.port, cport), (0, 0))[0]
+                    c_rx = q.get((cport, self.squid2.port), (0, 0))[1]
+                    inside = len(sent) - c_rx - k_tx
+                    if o_tx == 0 and q_rx == 0:
+                        if inside == held:
+                            stable += 1
+                        else:
+                            held, stable = inside, 0
+                        if stable >= 3:
+                            settled = True
+                            break
+                    time.sleep(0.1)
+                if not settled:
+                    return ("rig:not-read", sent, b"", held)
+                if held > 0:
+                    break
+            if held <= 0:
+                return ("rig:no-stall", sent, b"", 0)
+            s.close()
+            s = None
+            lsn.close()
+            time.sleep(0.3)
+
+            def wait_for(cond, limit):
+                deadline = time.time() + limit
+                while time.time() < deadline:
+                    if cond(tcp_queues()):
+                        return True
+                    time.sleep(0.1)
+                return False
+            try:
+                c.sendall(b"x")
+                wait_for(lambda q: (qport, oport) not in q, T)
+                time.sleep(0.2)
+                c.sendall(b"y")
+                wait_for(lambda q: q.get((self.squid2.port, cport), (0, 0))[1] == 0, T)
+            except OSError:
+                pass
+            time.sleep(1.0)
+            got, _eof = recv_all(c, T)
+            return ("200", sent, got, held)
+        except OSError as e:
+            return ("rig:%s" % type(e).__name__, b"", b"", 0)
+        finally:
+            for x in (c, s, lsn):
+                try:
+                    if x is not None:
+                        x.close()
+                except OSError:
+                    pass
+
+    def backlog(self, line):
+        p = line.split(" ")
+        try:
+            blocksz, seed = int(p[1]), int(p[2])
+        except (ValueError, IndexError):
+            return "bad-op"
+        last = None
+        for attempt in range(3):   # a loss is reported only when it repeats (a RST artefact of the rig does not)
+            status, sent, got, held = self.backlog_once(blocksz, seed + attempt)
+            if not self.squid2.alive():
+                return "abort:squid-died"
+            if status == "200" and got == sent:
+                return "delivered=all"
+            last = (status, sent, got, held)
+            if status != "200" and not status.startswith("rig:"):
+                break
+        status, sent, got, held = last
+        if status.startswith("rig:"):
+            return "delivered=all rig=" + status[4:]     # the situation could not be produced: nothing observed, nothing claimed
+        if status != "200":
+            return "status=" + status
+        return "delivered=short got=%d sent=%d held=%d prefix=%s" % (len(got), len(sent), held, "yes" if sent.startswith(got) else "no")
 
     def one(self, line):
         p = line.split(" ")
+        if p[0] == "backlog":
+            return self.backlog(line)
         try:
             mode, cs, sc = p[0], unhx(p[1]), unhx(p[2])
             ccuts = [int(x) for x in p[3].split(",")] if p[3] != "-" else []
@@ -197,11 +338,17 @@ class Harness:
         return "status=%s c_recv=%s c_end=%s s_recv=%s s_end=%s" % (status, hx(cgot), ceof, hx(sgot), s_how)
 
     def run(self, lines):
+        par = [l for l in lines if not l.startswith("backlog")]
         with ThreadPoolExecutor(max_workers=6) as ex:
-            return list(ex.map(rig.guarded(self.one, [self.squid]), lines))
+            res = dict(zip(par, ex.map(rig.guarded(self.one, [self.squid]), par)))
+        for l in lines:      # the back-pressure scenarios watch kernel queues: one at a time, on a quiet proxy
+            if l.startswith("backlog") and l not in res:
+                res[l] = rig.guarded(self.one, [self.squid2])(l)
+        return [res[l] for l in lines]
 
     def close(self):
         self.squid.stop()
+        self.squid2.stop()
 
 
 def build(stage):
@@ -237,6 +384,8 @@ def payload(rng, big):
 
 
 def cases(rng, tier):
+    for i in range(12 if tier == "thorough" else 3):
+        yield "backlog %d %d" % (rng.choice([8000, 8000, 4096, 12000, 16384]), rng.range(1, 1 << 30))
     n = 400 if tier == "thorough" else 70
     for i in range(n):
         cs, sc = payload(rng, tier == "thorough"), payload(rng, tier == "thorough")
@@ -251,6 +400,12 @@ def cases(rng, tier):
 
 def oracle(line, impl):
     p = line.split(" ")
+    if p[0] == "backlog":
+        if impl.startswith("delivered=short"):
+            return "back-pressure: the server closed after sending; the client was given only part of it before Squid closed the client side (%s)" % impl
+        if impl.startswith("delivered=all"):
+            return None
+        return "no usable observation: " + impl[:80]
     mode, cs, sc = p[0], unhx(p[1]), unhx(p[2])
     if impl.startswith("abort") or impl == "bad-op" or impl.startswith("no-200"):
         return "no usable observation: " + impl[:80]
@@ -272,6 +427,8 @@ def oracle(line, impl):
 
 def compare(line, impl, model):
     p = line.split(" ")
+    if p[0] == "backlog":
+        return impl.split(" ")[0] == model
     if p[0] == "abort":
         return model == "prefix"
     try:
@@ -284,11 +441,15 @@ def compare(line, impl, model):
 
 def nontrivial(line, impl, model):
     p = line.split(" ")
+    if p[0] == "backlog":
+        return "rig=" not in (impl or "")
     return p[1] != "-" and p[2] != "-"
 
 
 def tag(line, impl, model):
     p = line.split(" ")
+    if p[0] == "backlog":
+        return "backlog " + (impl or "").split(" got=")[0]
     def sz(h):
         n = 0 if h == "-" else len(h) // 2
         return "0" if n == 0 else "<100" if n < 100 else "<16k" if n < 16384 else ">=16k"
@@ -301,6 +462,8 @@ MAX_REPORT = 6
 
 def shrink(line):
     p = line.split(" ")
+    if p[0] == "backlog":
+        return
     cs, sc = unhx(p[1]), unhx(p[2])
     def mk(cs2, sc2, cc=p[3], scu=p[4], early=p[5], stop=p[7]):
         e = min(int(early), len(cs2))
